@@ -262,6 +262,7 @@ func indexStr(s, sub string) int {
 // schedule and a replay file pins it.
 func (ex *Exec) chooseSched(n int) int {
 	ex.schedSeq++
+	ex.stats.SchedDecisions++
 	v := ex.input("sched#"+itoa(ex.schedSeq), 8)
 	if !v.IsConst() {
 		ex.assume(ex.ctx.ULT(v, ex.ctx.BV(8, uint64(n))))
